@@ -174,3 +174,37 @@ func VH_C14_libs(kind, variant int) {
 	}
 	vreach("end")
 }
+
+// VH_C14_encoding: an action may state the encoding of its code; "none" and "" mean the
+// code is given as it is. Whatever the spelling, a script that throws is an error on its
+// node and a script that finishes yields its value.
+func VH_C14_encoding(kind, enc, script int) {
+	ctx := NewContext("c14enc")
+	store, err := NewMemStorage(ctx)
+	vassume(err == nil)
+	st := vhNewState(ctx, kind, "le", store)
+	loc, err := NewLocation(ctx, "le", st, nil)
+	vassume(err == nil)
+	loc.SetControl(DefaultControl())
+	code := []string{"1", "throw 1"}[script]
+	action := map[string]interface{}{"code": code}
+	switch enc {
+	case 1:
+		action["opts"] = map[string]interface{}{"encoding": "none"}
+	case 2:
+		action["opts"] = map[string]interface{}{"encoding": ""}
+	}
+	_, err = loc.AddRule(ctx, "r", Map{
+		"when":   map[string]interface{}{"pattern": map[string]interface{}{"ping": "?n"}},
+		"action": action,
+	})
+	vassume(err == nil)
+	ok, found := vhC14LibRun(ctx, loc)
+	vassert(found, "rule-dispatched")
+	if script == 0 {
+		vassert(ok, "script-within-limit-unaffected")
+	} else {
+		vassert(!ok, "failing-script-is-an-error-on-its-node")
+	}
+	vreach("end")
+}
